@@ -187,3 +187,45 @@ func H_C04_shared_map_elements() {
 		vAssert("entries", len(a) == 1 && len(b) == 1 && a["k"] == interface{}(x) && b["k"] == interface{}(x))
 	}
 }
+
+// H_C04_skipped_field_keeps_ordinals: the sender's class has a field this side lacks and its value holds
+// containers. Containers that come after it keep the ordinals the sender gave them: back-references to an object
+// behind the skipped value, and to one inside it, resolve to those very objects.
+func H_C04_skipped_field_keeps_ordinals() {
+	tm := map[string]reflect.Type{"ZKeep": reflect.TypeOf(ZKeep{}), "ZInner": reflect.TypeOf(ZInner{}), "[ZInner": reflect.TypeOf([]*ZInner{})}
+	n := vInt32("n")
+	inner := refCat(refClassDef("ZInner", []string{"n", "s"}), []byte{0x61}, refInt(7), refStr("in"))
+	var extra []byte
+	k, innerOrd := 0, 0 // containers inside the skipped value; ordinal of the ZInner among them
+	switch vChoice("extra", 5) {
+	case 0:
+		extra, k, innerOrd = inner, 1, 1
+	case 1:
+		extra, k, innerOrd = refCat([]byte{0x79}, inner), 2, 2
+	case 2:
+		extra, k, innerOrd = refCat([]byte{'H'}, refStr("k"), inner, []byte{'Z'}), 2, 2
+	case 3: // no container at all, but a class definition inside the skipped value
+		extra, k = refCat(refClassDef("ZInner", []string{"n", "s"}), refInt(1)), 0
+	case 4:
+		extra, k, innerOrd = refCat([]byte{0x7a}, inner, []byte{0x78}), 3, 2
+	}
+	// the known fields: p is a new object (ordinal 1+k), l = [p again, the object inside the skipped value if any]
+	pOrd := byte(0x90 + 1 + k)
+	p := refCat([]byte{0x61}, refInt(n), refStr("p"))
+	second := []byte{0x51, pOrd}
+	if k > 0 {
+		second = []byte{0x51, byte(0x90 + innerOrd)}
+	}
+	wire := refCat(refClassDef("ZKeep", []string{"extra", "a", "p", "l"}), []byte{0x60}, extra, refInt(5),
+		p, []byte{0x7a}, []byte{0x51, pOrd}, second)
+	out, err := ToObject(wire, tm)
+	vAssert("decode-noerr", err == nil)
+	g, ok := out.(*ZKeep)
+	vAssert("type", ok && g != nil && g.A == 5)
+	vAssert("later-object-keeps-ordinal", g.P != nil && g.P.N == n && len(g.L) == 2 && g.L[0] == g.P)
+	if k > 0 {
+		vAssert("object-inside-skipped-value", g.L[1] != nil && g.L[1] != g.P && g.L[1].N == 7 && g.L[1].S == "in")
+	} else {
+		vAssert("second-is-p", g.L[1] == g.P)
+	}
+}
